@@ -1,5 +1,6 @@
 import LtVerif.Model.H2Flow
 import LtVerif.Model.H2
+import LtVerif.Model.H2Reader
 namespace Driver
 open LtVerif
 
@@ -50,7 +51,7 @@ def intArg (args : List String) (i : Nat) : Int := ((args.getD i "0").toInt?).ge
     R:<sid>:<len>:<code>   Y:<sid>:<len>:<dep>   G:<sid>:<len>:<code>
     D:<sid>:<len>:<pad|->:<es01>
     H:<sid>:<r<status>,<body>,<reqLen>,<incr01>|x>:<es01>:<dep|->:<padBad01>:<contBad01>
-    C:<sid>   U:<type>   X:<sid> (PUSH_PROMISE)   O (oversize) -/
+    C:<sid>   U:<type>   X:<sid> (PUSH_PROMISE)   O (oversize)   F (32nd CONTINUATION of a block) -/
 def parseFrame (t : String) : Option FrameIn :=
   let a := t.splitOn ":"
   match a.head? with
@@ -80,6 +81,7 @@ def parseFrame (t : String) : Option FrameIn :=
   | some "U" => some (.unknown (natArg a 1))
   | some "X" => some (.pushPromise (natArg a 1))
   | some "O" => some .oversize
+  | some "F" => some .contFlood
   | _ => none
 
 def outStr : Out → String
@@ -117,10 +119,50 @@ def creditLine (args : List String) : String :=
     s!"{r.2} {r.1}"
   | _ => "bad-op"
 
+def parseKind (k : String) : HdrKind :=
+  if k = "x" then .hpackBad else
+    let f := (k.drop 1).toString.splitOn ","
+    .request (natArg f 0) (natArg f 1) (intArg f 2) (natArg f 3 == 1)
+
+/-- header block table of an `h2b` line: "<hex>=<kind>;<hex>=<kind>;..." or "-" -/
+def parseDecTable (t : String) : List (Bytes × HdrKind) :=
+  if t = "-" then [] else
+  (t.splitOn ";").filterMap fun e =>
+    match e.splitOn "=" with
+    | [h, k] => (B.ofHex h).map fun b => (b, parseKind k)
+    | _ => none
+
+/-- the HPACK layer as a table look-up (C07 has the decoder); an unlisted block does not decode -/
+def decOf (tab : List (Bytes × HdrKind)) (blk : Bytes) : HdrKind :=
+  match tab.find? (·.1 = blk) with
+  | some e => e.2
+  | none => .hpackBad
+
+/-- "h2b <table> <seg> <seg> .. q <seg> .. q": octets in read segments; after every q the frames
+    emitted in that step; at the end whether the connection has ended -/
+def h2bEvents (dec : Bytes → HdrKind) : List String → BConn → List Bytes → List String → List String × BConn
+  | [], s, _, acc => (acc.reverse, s)
+  | t :: rest, s, segs, acc =>
+    if t = "q" then
+      let r := h2StepBytes dec s segs.reverse
+      h2bEvents dec rest r.1 [] ((if r.2.isEmpty then "-" else String.intercalate " " (r.2.map outStr)) :: acc)
+    else
+      match B.ofHex t with
+      | some b => h2bEvents dec rest s (b :: segs) acc
+      | none => h2bEvents dec rest s segs ("bad-seg" :: acc)
+
+def h2bLine (args : List String) : String :=
+  match args with
+  | tab :: evs =>
+    let r := h2bEvents (decOf (parseDecTable tab)) evs {} [] []
+    String.intercalate " / " r.1 ++ (if r.2.c.dead then " | fin" else " | open")
+  | _ => "bad-op"
+
 def h2Line : List String → String
   | "credit" :: args => creditLine args
   | "fc" :: evs => String.intercalate " / " (fcEvents evs FcConn.init [])
   | "h2" :: evs => String.intercalate " / " (h2Events evs {} [] [])
+  | "h2b" :: args => h2bLine args
   | _ => "bad-op"
 
 end Driver
